@@ -61,12 +61,13 @@ import (
 func init() { Registry["C08"] = runC08 }
 
 var (
-	c08AddrGasBranch = common.HexToAddress("0x00000000000000000000000000000000000c0801") // gas left > 60k: burn ~81k, slot1:=2, return 2; else slot1:=1, return 1
-	c08AddrChain     = common.HexToAddress("0x00000000000000000000000000000000000c0802") // calls itself calldata[0] times with all gas (63/64), leaf burns + SSTORE; reverts when the inner call fails
-	c08AddrBlockCtx  = common.HexToAddress("0x00000000000000000000000000000000000c0803") // returns NUMBER, TIMESTAMP, COINBASE, GASLIMIT
-	c08AddrBalance   = common.HexToAddress("0x00000000000000000000000000000000000c0804") // returns BALANCE(CALLER)
-	c08AddrBalanceOf = common.HexToAddress("0x00000000000000000000000000000000000c0805") // returns BALANCE(calldata[0])
-	c08AddrSpender   = common.HexToAddress("0x00000000000000000000000000000000000c08ee") // plain address (approve target)
+	c08AddrGasBranch  = common.HexToAddress("0x00000000000000000000000000000000000c0801") // gas left > 60k: burn ~81k, slot1:=2, return 2; else slot1:=1, return 1
+	c08AddrClearHeavy = common.HexToAddress("0x00000000000000000000000000000000000c0807") // clears 40 pre-set slots: the refund sits at the EIP-3529 cap, the gas needed exceeds the gas used by a quarter
+	c08AddrChain      = common.HexToAddress("0x00000000000000000000000000000000000c0802") // calls itself calldata[0] times with all gas (63/64), leaf burns + SSTORE; reverts when the inner call fails
+	c08AddrBlockCtx   = common.HexToAddress("0x00000000000000000000000000000000000c0803") // returns NUMBER, TIMESTAMP, COINBASE, GASLIMIT
+	c08AddrBalance    = common.HexToAddress("0x00000000000000000000000000000000000c0804") // returns BALANCE(CALLER)
+	c08AddrBalanceOf  = common.HexToAddress("0x00000000000000000000000000000000000c0805") // returns BALANCE(calldata[0])
+	c08AddrSpender    = common.HexToAddress("0x00000000000000000000000000000000000c08ee") // plain address (approve target)
 )
 
 const (
@@ -102,7 +103,14 @@ func c08Contracts() []world.Contract {
 		Op(0x41).PushU(64).Op(asm.MSTORE).Op(0x45).PushU(96).Op(asm.MSTORE).PushU(128).PushU(0).Op(asm.RETURN)
 	bal := asm.New().Op(asm.CALLER, asm.BALANCE).PushU(0).Op(asm.MSTORE).PushU(32).PushU(0).Op(asm.RETURN)
 	balOf := asm.New().PushU(0).Op(asm.CALLDATALOAD, asm.BALANCE).PushU(0).Op(asm.MSTORE).PushU(32).PushU(0).Op(asm.RETURN)
+	heavy := asm.New()
+	heavySt := map[common.Hash]common.Hash{}
+	for i := 0; i < 40; i++ {
+		heavy.Sstore(uint64(i), 0)
+		heavySt[h(uint64(i))] = h(9)
+	}
 	return append(cs,
+		world.Contract{Addr: c08AddrClearHeavy, Code: heavy.Stop().Bytes(), Storage: heavySt},
 		world.Contract{Addr: c08AddrBalanceOf, Code: balOf.Bytes()},
 		world.Contract{Addr: c08AddrGasBranch, Code: gb.Assemble()},
 		world.Contract{Addr: c08AddrChain, Code: ch.Assemble()},
@@ -135,6 +143,7 @@ var c08Programs = []c08Prog{
 	{Name: "log", To: AddrLog2, Gas: 100000, Predictive: true, Expect: "ok"},
 	{Name: "sstore-set", To: AddrSstore, Gas: 100000, Predictive: true, Expect: "ok"},
 	{Name: "sstore-clear-refund", To: AddrSclear, Gas: 100000, Predictive: true, Expect: "ok"},
+	{Name: "sstore-clear-heavy-refund", To: c08AddrClearHeavy, Gas: 400000, Predictive: true, Expect: "ok"},
 	{Name: "create", Create: true, Data: func(*c08Env) []byte { return createOKInit() }, Gas: 200000, Predictive: true, Expect: "ok"},
 	{Name: "selfdestruct", To: AddrSuicide, Gas: 100000, Predictive: true, Expect: "ok"},
 	{Name: "revert", To: AddrLogRev, Gas: 100000, Predictive: true, Expect: "execution reverted", EstErr: "execution reverted"},
